@@ -1,3 +1,5 @@
+import sqlalchemy as sa
+
 from .base import Plugin
 from ..operation import Operation
 from ..utils import (
@@ -24,8 +26,26 @@ class NullDeletePlugin(Plugin):
                 option(version_obj, 'operation_type_column_name')
             ) == Operation.DELETE and
             not prop.columns[0].primary_key and
-            not is_internal_column(version_obj, prop.key)
+            not is_internal_column(version_obj, prop.key) and
+            not self.is_discriminator(version_obj, prop)
         )
+
+    def is_discriminator(self, version_obj, prop):
+        """
+        Return whether or not given column property is the polymorphic
+        discriminator of given version object. A version row without its
+        discriminator value can not be loaded anymore.
+        """
+        mapper = sa.inspect(version_obj.__class__)
+        if mapper.polymorphic_on is None:
+            return False
+        try:
+            return (
+                mapper.get_property_by_column(mapper.polymorphic_on).key ==
+                prop.key
+            )
+        except sa.orm.exc.UnmappedColumnError:
+            return False
 
     def after_create_version_object(self, uow, parent_obj, version_obj):
         for prop in versioned_column_properties(parent_obj):
